@@ -104,6 +104,13 @@ def dag_case(rng, tier):
     # an unrelated graph with its own gradient
     lines += [gen_dag.leaf_line((2,), [1.0, 2.0], True), f't op mul {nt},{nt}', f't bw {nt + 1} 2 {show_floats([1.0, 1.0])}']
     g1, g2 = gen_dag.rand_data(rng, sh), gen_dag.rand_data(rng, sh)
+    # a leaf used as the root of its own backward call first: its buffer must not be the caller's array, or the sweeps
+    # below would accumulate into the caller's gradient
+    for n in P.nodes:
+        if n['kind'] == 'leaf' and n['rg'] and rng.chance(.5):
+            k = n['outs'][0]
+            lsh = P.tshape[k]
+            lines.append(f"t bw {k} {show_ints(lsh)} {show_floats(gen_dag.rand_data(rng, lsh))}")
     lines += [f"t bw {root} {show_ints(sh)} {show_floats(g1)}", f"t bw {root} {show_ints(sh)} {show_floats(g2)}"]
     # re-use the root in a later graph and differentiate again (the root keeps its buffer)
     lines += [f't op mul {root},{root}', f"t bw {nt + 2} {show_ints(sh)} {show_floats(g1)}"]
